@@ -20,8 +20,10 @@ Kinds ==
 
 Results(kind) ==
   CASE kind.k = "transform" -> {"forward", "inverse"}
-    [] kind.k = "distribution" -> {"log_prob"}
-    [] kind.k = "flow" -> {"log_prob", "transform_to_noise"}
+    \* sample_and_log_prob: reparameterised samplers (noise drawn, then mapped by differentiable
+    \* operations) - the samples and their log-prob are functions of the parameters and the context
+    [] kind.k = "distribution" -> {"log_prob", "sample_and_log_prob"}
+    [] kind.k = "flow" -> {"log_prob", "transform_to_noise", "sample_and_log_prob"}
 
 Leaves(kind) == {"inputs", "params"} \cup (IF kind.ctx THEN {"context"} ELSE {})
 
@@ -35,6 +37,7 @@ Init ==
   /\ hist \in {"fresh", "after_forward", "after_inverse"}     \* what was called before (fills caches)
   /\ result \in Results(kind)
   /\ wrt \in Leaves(kind)
+  /\ (result = "sample_and_log_prob" => wrt # "inputs")       \* a sampling call has no data input
   \* no leaf is detached by design: the cache keeps its autograd graph, conditioners are not
   \* stopped, data-dependent initialisation happens under no_grad only for the statistics
   /\ mustFlow = TRUE
